@@ -155,8 +155,7 @@ def run_tab(w, shard, tier, acc, only=None):
     gl = graph_list(tier)
     idxs = list(range(shard, len(gl), NSHARD)) if only is None else [only]
     for part in px.chunked(idxs, 60):
-        w.new_machine()
-        text = []
+        text = [":- use_module(library(tabling))."]
         jobs = []
         for gi in part:
             n, edges = gl[gi]
@@ -175,20 +174,27 @@ def run_tab(w, shard, tier, acc, only=None):
                 p = "u%d" % gi
                 text.append(FORMS["r"] % {"p": p, "e": e})
                 jobs.append((gi, "r", 0, p, False))
-        for tpart in px.chunked(text, 200):
-            grpe.consult_checked(w, "\n".join(tpart) + "\n")
+        consults = ["\n".join(tpart) + "\n" for tpart in px.chunked(text, 200)]
         goals = []
         meta = []
         for gi, form, order, p, tabled in jobs:
             n, edges = gl[gi]
             for c in calls_for(n, order):
-                goals.append("g(%s, 200)" % call_text(p, c))
+                goals.append(call_text(p, c))
                 meta.append((gi, form, order, tabled, c, "call"))
         # abolish_all_tables + recomputation: once per graph, on the left-recursive order-0 copy, at the very end
         for gi in part:
-            goals.append("g((abolish_all_tables, pl0_%d(X,Y)), 200)" % gi)
+            goals.append("abolish_all_tables, pl0_%d(X,Y)" % gi)
             meta.append((gi, "l", 0, True, ("--", None, None), "abolish"))
-        rs = px.run_goals(w, goals)
+        # a panic or hang would take the consulted programs with it: run_robust repeats the batch
+        # one goal per request with the programs persisted when that happens
+        w.new_machine()
+        for t in consults:
+            grpe.consult_checked(w, t)
+        r0 = w.restarts
+        rs = px.run_goals(w, ["g((%s), 200)" % g for g in goals])
+        if w.restarts != r0 or any(r.abn for r in rs):
+            rs = [x[0] for x in grpe.run_robust(w, consults, [[g] for g in goals], force_single=True)]
         for (gi, form, order, tabled, c, what), r in zip(meta, rs):
             n, edges = gl[gi]
             reach = closure(n, edges)
